@@ -47,7 +47,7 @@ var c06Positions = []c06Pos{
 // forms: how the text under test is placed in the language list
 var c06Forms = []string{"single-untagged", "single-tagged", "map-first", "map-second", "map-cased-tags", "untagged+tagged", "tagged+untagged"}
 
-var c06Channels = []string{"json-pkg", "json-method", "gob"}
+var c06Channels = []string{"json-pkg", "json-method", "gob", "json-then-gob"}
 
 func c06Build(p c06Pos, form string, text []byte) any {
 	var n ap.NaturalLanguageValues
@@ -99,6 +99,12 @@ func c06RoundTrip(channel string, host any) (any, []byte, error) {
 		t := universeType(host)
 		v, err := jsonDecode("method", t, b)
 		return v, b, err
+	case "json-then-gob":
+		// both codecs on ONE instance: the value is written as JSON first (result discarded), then stored with gob and read back
+		if _, err := ap.MarshalJSON(host.(ap.Item)); err != nil {
+			return nil, nil, err
+		}
+		fallthrough
 	default:
 		b, err := ap.GobEncode(host.(ap.Item))
 		if err != nil {
@@ -152,7 +158,7 @@ func init() {
 		ID: "C06", Name: "text-bytes", Level: "model_checking",
 		Rule: "texts = every sequence of length 1..L over a 32-token alphabet (letters, space, backslash, quote, slash, escape letters n/t/u, 0041, HTML and JSON punctuation, JSON literals 1/42/true/null, LF/TAB/CR, " +
 			"control bytes, DEL, 2/3/4-byte UTF-8, U+2028, U+FFFD), all valid UTF-8; positions = name, summary, content, source.content, preferredUsername x forms {single untagged, single tagged, " +
-			"first and second slot of a two-entry map} x channels {JSON package functions, JSON methods, gob}; oracle: bytes after decode == bytes before encode, map tags preserved as a set; " +
+			"first and second slot of a two-entry map} x channels {JSON package functions, JSON methods, gob, JSON-then-gob on one instance (single tokens)}; oracle: bytes after decode == bytes before encode, map tags preserved as a set; " +
 			"non-trivial = text with a character outside [a-z ]",
 		Assumptions: []string{"texts are valid UTF-8 (the stated domain)"},
 		Bound: func(tier string) string {
@@ -291,6 +297,9 @@ func c06Run(c *engine.Ctx) {
 		for _, form := range c06Forms {
 			for _, ch := range c06Channels {
 				for _, seq := range texts {
+					if ch == "json-then-gob" && len(seq) > 1 {
+						continue // both codecs on one instance: single tokens (what matters here is what the first codec does to the list)
+					}
 					one(p, form, ch, seq)
 				}
 			}
@@ -309,7 +318,7 @@ func c06Run(c *engine.Ctx) {
 				for pi, p := range c06Positions {
 					for _, form := range c06Forms {
 						for _, ch := range c06Channels {
-							if pi != 2 && (form != "single-untagged" || ch != "json-method") {
+							if ch == "json-then-gob" || (pi != 2 && (form != "single-untagged" || ch != "json-method")) {
 								continue
 							}
 							oneText(p, form, ch, text, tname)
@@ -333,7 +342,7 @@ func c06Run(c *engine.Ctx) {
 	gen4 = func(cur []int) {
 		if len(cur) == 4 {
 			for _, form := range c06Forms {
-				for _, ch := range c06Channels {
+				for _, ch := range c06Channels[:3] {
 					one(c06Positions[2], form, ch, append([]int{}, cur...))
 				}
 			}
